@@ -187,11 +187,13 @@ CLAIMED = {
             "bound by the reference semantics + the structural requirement the checker states in its messages) and what "
             "a reported counterexample must satisfy (genuine, polarity, minimal length).  The real checkers are given "
             "the library's own answer, 3-6 single mutations of it and ill-formed regular-expression texts; TLC judges "
-            "per call: verdict OK => criterion, ill-formed never OK, counterexample clauses.  Trace validation of the "
-            "checkers' verdicts against a TLA+ criterion; no operational checker model (DESIGN 5/C12 planned one).",
+            "per call: verdict OK => criterion, ill-formed never OK, counterexample clauses; a binding clause compares "
+            "each verdict with the operational model's verdict.  Checker.tla checks with TLC that the operational "
+            "model of the product checkers (the one family that does not look at exactly its criterion) never says "
+            "OK to a wrong answer over every answer of a small universe.",
             "trusted: TLC, abstraction.py, the reference semantics, the printers that render the submitted answers "
             "(C16); bounds 2-4",
-            "TLC trace validation of recorded checker verdicts against a TLA+ criterion"),
+            "TLA+ checker model (TLC exhaustive, product family) + TLC trace validation of recorded verdicts against a TLA+ criterion"),
     "C13": ("5/C13",
             "The real chain - notebooks/make_notebook.apply_command on a temporary reference file, then the checker "
             "called as the notebook template calls it - is run for 21 exercise types on random references (DFAs over "
